@@ -117,6 +117,44 @@ def scenario(hist, entry, rng, variant=0, which=None):
     lifecycle.observe_attrs(hist, a, "SeedDeterminism", note="third fit, same seed")
 
 
+def mirror_trees(ctx):
+    """Two training sets whose binner trees have the SAME number of nodes and mirrored shapes (leaves {1,3,4} / {2,3,4}):
+    anything keyed on the size of the tree instead of the tree survives the refit.  Refitted instance vs fresh clone."""
+    import warnings
+    from sklearn.tree import DecisionTreeRegressor, DecisionTreeClassifier
+    from sklearn.linear_model import LinearRegression
+    from sklearn.base import clone
+    import mlinsights.mlmodel as M
+    X = numpy.array([[float(i), float(i % 3)] for i in range(16)])
+    plans = [("PiecewiseRegressor", lambda: M.PiecewiseRegressor(binner=DecisionTreeRegressor(max_depth=2, random_state=0), estimator=LinearRegression()),
+              numpy.array([0.0] * 8 + [100.0] * 4 + [200.0] * 4), numpy.array([200.0] * 4 + [100.0] * 4 + [0.0] * 8), ["predict", "transform_bins"]),
+             ("PiecewiseClassifier", lambda: M.PiecewiseClassifier(binner=DecisionTreeClassifier(max_depth=2, random_state=0),
+                                                                  estimator=DecisionTreeClassifier(max_depth=1, random_state=0), random_state=0),
+              numpy.array([0] * 8 + [1, 1, 1, 1, 2, 2, 2, 2]), numpy.array([1, 1, 1, 1, 2, 2, 2, 2] + [0] * 8), ["predict", "predict_proba", "transform_bins"])]
+    for name, mk, y1, y2, methods in plans:
+        for first, second in ((y1, y2), (y2, y1)):
+            ctx.evaluations += 1
+            with warnings.catch_warnings():
+                warnings.simplefilter("ignore")
+                try:
+                    a = mk()
+                    a.fit(X, first)
+                    for m in methods:
+                        getattr(a, m)(X)
+                    shape1 = (a.binner_.tree_.node_count, tuple(a.binner_.tree_.children_left))
+                    a.fit(X, second)
+                    shape2 = (a.binner_.tree_.node_count, tuple(a.binner_.tree_.children_left))
+                    c = clone(a).fit(X, second)
+                    for m in methods:
+                        ra, rc = numpy.asarray(getattr(a, m)(X)), numpy.asarray(getattr(c, m)(X))
+                        if ra.shape != rc.shape or not numpy.allclose(ra, rc, atol=1e-9, equal_nan=True):
+                            ctx.violation("RefitEqFresh", "C03 " + name, "%s fresh clone (mirrored binner trees)" % m,
+                                          dict(first_tree=shape1, second_tree=shape2))
+                except Exception as e:          # noqa: BLE001
+                    ctx.violation("RefitEqFresh", "C03 " + name, "answers (mirrored binner trees)", repr(e)[:200])
+            ctx.case(("mirror", name, tuple(first)), nontrivial=shape1[0] == shape2[0] and shape1 != shape2)
+
+
 def run(ctx):
     boot.load()
     thorough = ctx.tier == "thorough"
@@ -148,6 +186,7 @@ def run(ctx):
             ctx.case((entry.name, rep), sample=dict(kind="history", cls=entry.name,
                                                     events=[(e["a"], e.get("kind", e.get("method", "")), e.get("data", "")) for e in hist.t["ev"][:9]]))
             traces.append(hist.t)
+    mirror_trees(ctx)
     lifecycle.validate(ctx, traces)
     ctx.exhaustive = False
     ctx.rule = ("Per class: fit on A (and use the model), refit the same instance on B (other size, dimension, label set), fit a "
